@@ -136,6 +136,13 @@ Theorem C20_shipped_sequence_guarded : wf_seq model_dirs import_seq = true.
 Proof. exact shipped_wf. Qed.
 Print Assumptions C20_shipped_sequence_guarded.
 
+(* so do the calls outside the import sequence that go through the same cache: load_dvt with
+   every accepted spelling of its path, and the *_el models rc(schema='asjp') loads; the generic
+   theorems above therefore cover histories that mix them with restarts *)
+Theorem C20_alias_calls_guarded : wf_seq model_dirs alias_seq = true.
+Proof. exact alias_wf. Qed.
+Print Assumptions C20_alias_calls_guarded.
+
 (* hence, for the shipped start-up, from the absent directory and through any damage/restart
    rounds, with no premise left but the two about the decoder *)
 Theorem C20_shipped_restarts :
@@ -165,13 +172,14 @@ Print Assumptions C20_total_needs_the_scorer_guard.
 
 (* ---- verified checkers run on the implementation's outputs ------------------------------- *)
 Theorem C20_checker_clean :
-  forall (dir : bool) (fl : list (string * xcontent)),
-    cleanb dir fl = true <-> clean xdec xconv xdvt import_seq (state_of dir fl).
+  forall (seq : list step) (dir : bool) (fl : list (string * xcontent)),
+    cleanb seq dir fl = true <-> clean xdec xconv xdvt seq (state_of dir fl).
 Proof. exact cleanb_spec. Qed.
 Print Assumptions C20_checker_clean.
 
 Theorem C20_checker_values :
-  forall o : start_obs, vals_refb o = true <-> so_vals o = map (ref_val xconv xscorer xdvt model_dirs) import_seq.
+  forall o : start_obs,
+    vals_refb o = true <-> so_vals o = map (ref_val xconv xscorer xdvt model_dirs) (so_seq o).
 Proof. exact vals_refb_spec. Qed.
 Print Assumptions C20_checker_values.
 
